@@ -363,7 +363,8 @@ class InconMachine(StoreMachine):
             self.edit(*ch)
         elif kind == 'W':
             slot, ni, reset = ch
-            obj = self.objs.get(slot % self.SLOTS)
+            slot = self.pick_slot(slot)
+            obj = self.objs.get(slot)
             nvar = None
             if obj is not None:
                 nvar = obj.num_variables if obj.num_blocks else None
@@ -371,13 +372,13 @@ class InconMachine(StoreMachine):
                 if len(lens) > 1:
                     ctx.stats['skip_W_ragged'] += 1
                     return
-            self.do_write(slot % self.SLOTS, self.NAMES[ni % 3],
+            self.do_write(slot, self.NAMES[ni % 3],
                           {'reset': bool(reset), 'nvar': nvar}, fault)
         elif kind == 'R':
             ni, slot = ch
-            self.do_read(self.NAMES[ni % 3], None if slot == 3 else slot, fault)
+            self.do_read(self.pick_name(ni), None if slot == 3 else slot, fault)
         elif kind == 'CYCLE':
-            self.do_cycle(self.NAMES[ch[0] % 3])
+            self.do_cycle(self.pick_name(ch[0]))
         elif kind == 'FOREIGN':
             ni, sub, nblk, nvar, flags = ch
             nvar = 1 + (nvar - 1) % 12
@@ -416,7 +417,7 @@ class InconMachine(StoreMachine):
 
     def edit(self, slot, what, idx, sub):
         ctx = self.ctx
-        inc = self.objs.get(slot % self.SLOTS)
+        inc = self.objs.get(self.pick_slot(slot))
         if inc is None:
             ctx.stats['skip_EDIT'] += 1
             return
